@@ -129,7 +129,7 @@ def check_value_chars(ck):
     hs = HelperSummaries(ck.repo, fi, lambda h: regex_cleaner(ck.repo, h, FORBIDDEN, _nontext_cleaner), ("format_timestamp",))
     states = flow_taint(fi, ps, sanitizers=("format_timestamp",), clean_on_edge=hs.cleaner(regex_cleaner(ck.repo, fi, FORBIDDEN, _nontext_cleaner)), on_node=hs.on_node, expr_hook=hs.expr_hook)
     rets = fi.cfg.stmt_nodes(lambda n: n.kind == "stmt" and isinstance(n.ast, ast.Return) and n.ast.value is not None)
-    ck.floor("C07.value-chars", len(rets), 2, "returns in _convert_header_value")
+    ck.floor("C07.value-chars", len(rets), 1, "returns in _convert_header_value")
     for r in rets:
         bad = any(expr_tainted(r.ast.value, t, ("format_timestamp",), (), hs.expr_hook) for t in states.get(r.id, []))
         ck.ob("C07.value-chars", fi, r.ast, not bad, "every value returned is character-checked (or converted from a non-text type)")
